@@ -6,6 +6,10 @@
    table consistent, claims carry 0 bytes): at every acquire the guarded state is havocked and G assumed - other threads may
    have done anything that respects G - and at every release G is proved;
  * the source asserts are obligations under that havoc;
+ * (GLoad) ghost `ltask[f]` = "a load task of f was submitted and has not ended"; GLoad: ltask[f] => f has an entry that is not a
+   pending write and has no heap tuple; a write is only submitted when no load of the file is in flight
+   (#submit-write.no-load-of-the-file-in-flight) - otherwise the load can read the file while the writer has truncated it.
+   Both fail on the pinned code: RECORDED known finding (known_findings.json), see DESIGN.md 8.5;
  * (GL) a counted entry whose task has completed accounts exactly the length of the contents it caches (#release.GL) - a load that
    finishes late must not put ITS byte count on an entry that meanwhile belongs to a completed write;
  * an unfinished write owns its entry (GW): ghost `wtask[f]` = "a write task of f was submitted and has not ended" (its completion
@@ -55,6 +59,7 @@ def build(reg, src):
         c16.valid_heap(st, st.field(st.env['self'], 'file_access_times'))
         st.ghost['concurrent'] = lift(True)
         st.ghost['wtask'] = fs.VArr(z3.Const('wtask0', fc.BoolArr))
+        st.ghost['ltask'] = fs.VArr(z3.Const('ltask0', fc.BoolArr))
 
     not_held = lambda s, *a: VBool(z3.Not(A(s.st, s.self)['held']))
 
@@ -128,6 +133,7 @@ def build(reg, src):
     from replay import c18 as rp
     reg.replays.append((r'update_file_futures_and_memory#release\.GL', rp.replay_late_load_accounting))
     reg.replays.append((r'update_file_futures_and_memory#(call|release|assert)', rp.replay_late_load_under_pressure))
+    reg.replays.append((r'submit-write\.no-load-of-the-file-in-flight|#release\.GLoad', rp.replay_torn_read))
     reg.replays.append((r'unload_file#release|#release\.GW', rp.replay_unload_during_write))
     reg.replays.append((r'update_file_futures_and_memory#assert', rp.replay_unload_during_load))
     reg.replays.append((r'update_file_futures_and_memory#release', rp.replay_double_count))
@@ -144,6 +150,15 @@ def GW(st, c):
     return VBool(z3.ForAll([fq], z3.Implies(z3.Select(st.ghost['wtask'].t, fq),
                                             z3.And(sel(a['dom'], fq), sel(a['writing'], fq), z3.Not(z3.Select(st.ghost['done_ids'].t, fid)),
                                                    z3.Not(z3.Select(st.ghost['failed_ids'].t, fid))))))
+
+
+def GLoad(st, c):
+    """an unfinished load has its entry in the table: not a pending write, no heap tuple, its future not done"""
+    a = A(st, c)
+    fid = sel(a['fid'], fq)
+    return VBool(z3.ForAll([fq], z3.Implies(z3.Select(st.ghost['ltask'].t, fq),
+                                            z3.And(sel(a['dom'], fq), z3.Not(sel(a['writing'], fq)), sel(a['cnt'], fq) == 0,
+                                                   z3.Not(z3.Select(st.ghost['done_ids'].t, fid)), z3.Not(z3.Select(st.ghost['failed_ids'].t, fid))))))
 
 
 def GL(st, c, at=None):
@@ -168,16 +183,24 @@ def submit_concurrent(eng, st, args, kwargs, node):
     st.ghost['submitted'] = st.ghost.get('submitted', lift(0)) + 1
     st.assume(And(Not(st.ghost['done_ids'][fid]), Not(st.ghost['failed_ids'][fid])))      # a future just created is not done
     fn = args[0] if args else None
+    if 'ltask' in st.ghost and isinstance(fn, VFunc) and (fn.name == '_load_file' or str(fn.key or '').endswith('._load_file')) and len(args) > 1:
+        st.ghost['ltask'] = st.ghost['ltask'].store(args[1], lift(True))          # an unfinished load of that file exists from now on
     if 'wtask' in st.ghost and isinstance(fn, VFunc) and (fn.name == '_write_file' or str(fn.key or '').endswith('._write_file')) and len(args) > 1:
         # one write of a file at a time: a second writer submitted next to an unfinished one races it to the disk, and the one that
         # loses still reports success
         eng.oblige(f"{eng.cur_key}#submit-write.no-write-of-the-file-in-flight@{eng.site_ordinal('submitw', node)}", st,
                    z3.Not(z3.Select(st.ghost['wtask'].t, lift(args[1]).t)), kind='monitor-invariant')
         st.ghost['wtask'] = st.ghost['wtask'].store(args[1], lift(True))          # an unfinished write of that file exists from now on
+        if 'ltask' in st.ghost:
+            # ... and no load of it may be in flight: the writer truncates the file before it writes (a torn read for the getter)
+            eng.oblige(f"{eng.cur_key}#submit-write.no-load-of-the-file-in-flight@{eng.site_ordinal('submitwl', node)}", st,
+                       z3.Not(z3.Select(st.ghost['ltask'].t, lift(args[1]).t)), kind='monitor-invariant', regions=_regions(st))
     return [(st, fut)]
 
 
+_regions = lambda st: {}
 REGIONS = {
+    'load-of-the-file-in-flight-at-acquire': lambda inputs, o: o.meta.get('regions', {}).get('load-of-the-file-in-flight-at-acquire'),
     'entry-absent-at-acquire': lambda inputs, o: o.meta.get('regions', {}).get('entry-absent-at-acquire'),
     'entry-already-counted-at-acquire': lambda inputs, o: o.meta.get('regions', {}).get('entry-already-counted-at-acquire'),
 }
@@ -192,8 +215,13 @@ def configure(eng):
         snap = st.ghost.get('acq_arrays')
         if snap is None or not isinstance(f, VU):
             return {}
-        return {'entry-absent-at-acquire': z3.Not(sel(snap['dom'], f.t)),
-                'entry-already-counted-at-acquire': sel(snap['counted'], f.t)}
+        r = {'entry-absent-at-acquire': z3.Not(sel(snap['dom'], f.t)),
+             'entry-already-counted-at-acquire': sel(snap['counted'], f.t)}
+        if 'ltask_acq' in st.ghost:
+            r['load-of-the-file-in-flight-at-acquire'] = z3.Select(st.ghost['ltask_acq'].t, f.t)
+        return r
+    global _regions
+    _regions = regions
 
     def on_acquire(e, st, lock, node):
         if 'concurrent' not in st.ghost:
@@ -217,6 +245,10 @@ def configure(eng):
             st.ghost['wtask'] = new
             st.assume(GW(st, c))
             st.assume(GL(st, c))
+        if 'ltask' in st.ghost:
+            st.ghost['ltask'] = fs.VArr(z3.Const(fresh_name('ltask'), fc.BoolArr))
+            st.assume(GLoad(st, c))
+            st.ghost['ltask_acq'] = st.ghost['ltask']
 
     def on_release(e, st, lock, node):
         if 'concurrent' not in st.ghost:
@@ -234,6 +266,12 @@ def configure(eng):
                 e.oblige(f"{e.cur_key}#release.GL[file_name]@{e.site_ordinal('releaseGL1', node)}", st, GL(st, c, at=st.env['file_name'].t),
                          kind='monitor-invariant', regions=regions(st))
             e.oblige(f"{e.cur_key}#release.GL@{e.site_ordinal('releaseGL', node)}", st, GL(st, c), kind='monitor-invariant', regions=regions(st))
+        if 'ltask' in st.ghost:
+            if e.cur_key.endswith('FileCache.update_file_futures_and_memory') and 'loaded' in st.env and 'file_name' in st.env:
+                # the load's completion handler: its load is finished when it leaves the critical section
+                l = st.ghost['ltask'].t
+                st.ghost['ltask'] = fs.VArr(z3.If(e.truth(st.env['loaded']), z3.Store(l, st.env['file_name'].t, z3.BoolVal(False)), l))
+            e.oblige(f"{e.cur_key}#release.GLoad@{e.site_ordinal('releaseGLoad', node)}", st, GLoad(st, c), kind='monitor-invariant', regions=regions(st))
     eng.hooks['on_acquire'] = on_acquire
     eng.hooks['on_release'] = on_release
 
